@@ -557,7 +557,23 @@ impl<'a> G<'a> {
                     if let Sel::Field { alias: None, name, args, sub: Some(_), .. } = &sel {
                         if args.is_empty() {
                             let base = f.ty.named().to_string();
-                            let sub2 = self.selset(rng, &base, depth + 1);
+                            let mut sub2 = self.selset(rng, &base, depth + 1);
+                            // re-select one aliased field of the first occurrence under the SAME alias
+                            // (same field, same arguments): sub-selections / conditions must merge per key
+                            if let Sel::Field { sub: Some(first_sub), .. } = &sel {
+                                let aliased: Vec<&Sel> = first_sub.iter().filter(|x| matches!(x, Sel::Field { alias: Some(_), name, .. } if name != "__typename")).collect();
+                                if !aliased.is_empty() && rng.chance(1, 2) {
+                                    if let Sel::Field { alias, name: n2, args: a2, sub: s2, .. } = (*rng.pick(&aliased)).clone() {
+                                        let fdef = self.s.fields_of(&base).iter().find(|g| g.name == n2).cloned();
+                                        if let Some(fdef) = fdef {
+                                            let tbase = fdef.ty.named().to_string();
+                                            let nsub = if s2.is_some() { Some(self.selset(rng, &tbase, depth + 2)) } else { None };
+                                            let d2 = self.cond_dirs(rng, "FIELD");
+                                            sub2.push(Sel::Field { alias, name: n2, args: a2, dirs: d2, sub: nsub });
+                                        }
+                                    }
+                                }
+                            }
                             let dirs = self.cond_dirs(rng, "FIELD");
                             sels.push(Sel::Field { alias: None, name: name.clone(), args: vec![], dirs, sub: Some(sub2) });
                         }
